@@ -19,28 +19,6 @@ theorem rd16_wr16 (be : Bool) (n : Nat) (h : n < 65536) (rest : Bytes) :
   | false => refine ⟨_, _, rfl, ?_⟩; simp [rd16, u16le]; omega
   | true => refine ⟨_, _, rfl, ?_⟩; simp [rd16, u16le]; omega
 
-/-- what the decoder does with a given type-info word, independent of the byte order -/
-def nextTi (ti : Nat) (rest : Bytes) (be : Bool) : Option (DArg × Bytes) :=
-  let len := tyleLen ti
-  if has ti Gen.tiVari then none
-  else if has ti Gen.tiFixp then none
-  else if has ti Gen.tiBool then
-    (if len != 1 && len != 0 then none else
-      match rest with
-      | x :: rest' => some ({ ti := ti, raw := [x] }, rest')
-      | [] => none)
-  else if has ti (Gen.tiSint + Gen.tiUint) then
-    (if len < 1 then none else if rest.length ≥ len then some ({ ti := ti, raw := rest.take len }, rest.drop len) else none)
-  else if has ti Gen.tiFloa then
-    (if len < 2 then none else if rest.length ≥ len then some ({ ti := ti, raw := rest.take len }, rest.drop len) else none)
-  else if has ti (Gen.tiStrg + Gen.tiRawd) then
-    (match rest with
-      | l1 :: l2 :: rest' =>
-        let n := rd16 be l1 l2
-        if rest'.length ≥ n then some ({ ti := ti, raw := rest'.take n }, rest'.drop n) else none
-      | _ => none)
-  else none
-
 theorem next_cons (be : Bool) (a b c d : UInt8) (rest : Bytes) :
     next be (a :: b :: c :: d :: rest) = nextTi (rd32 be a b c d) rest be := rfl
 
@@ -67,13 +45,13 @@ theorem next_encArg (be : Bool) (v : Val) (hw : v.wf = true) (rest : Bytes) :
   rw [List.append_assoc, List.append_assoc, ← List.append_assoc _ v.bytes rest, h1, next_cons, h2]
   cases v with
   | bool x =>
-    cases x <;> simp [nextTi, Val.ti, Val.hasLen, Val.bytes, Val.decoded, has, tyleLen, Gen.tiBool, Gen.tiVari, Gen.tiFixp, Gen.tiMaskTyle]
+    cases x <;> simp [nextTi, Val.ti, Val.hasLen, Val.bytes, Val.decoded, has, tyleLen, Gen.tiBool, Gen.tiVari, Gen.tiFixp, Gen.tiAray, Gen.tiTrai, Gen.tiStru, Gen.tiMaskTyle]
   | uint t r =>
     simp only [Val.wf, Bool.and_eq_true, decide_eq_true_eq, beq_iff_eq] at hw
     obtain ⟨⟨h1, h2⟩, h3⟩ := hw
     have ht : t = 1 ∨ t = 2 ∨ t = 3 ∨ t = 4 := by omega
     rcases ht with rfl | rfl | rfl | rfl <;>
-      simp [nextTi, Val.ti, Val.hasLen, Val.bytes, Val.decoded, has, tyleLen, widthOf, Gen.tiBool, Gen.tiVari, Gen.tiFixp,
+      simp [nextTi, Val.ti, Val.hasLen, Val.bytes, Val.decoded, has, tyleLen, widthOf, Gen.tiBool, Gen.tiVari, Gen.tiFixp, Gen.tiAray, Gen.tiTrai, Gen.tiStru,
         Gen.tiMaskTyle, Gen.tiUint, Gen.tiSint] at h3 ⊢ <;>
       first
         | (simp [h3]; done)
@@ -83,7 +61,7 @@ theorem next_encArg (be : Bool) (v : Val) (hw : v.wf = true) (rest : Bytes) :
     obtain ⟨⟨h1, h2⟩, h3⟩ := hw
     have ht : t = 1 ∨ t = 2 ∨ t = 3 ∨ t = 4 := by omega
     rcases ht with rfl | rfl | rfl | rfl <;>
-      simp [nextTi, Val.ti, Val.hasLen, Val.bytes, Val.decoded, has, tyleLen, widthOf, Gen.tiBool, Gen.tiVari, Gen.tiFixp,
+      simp [nextTi, Val.ti, Val.hasLen, Val.bytes, Val.decoded, has, tyleLen, widthOf, Gen.tiBool, Gen.tiVari, Gen.tiFixp, Gen.tiAray, Gen.tiTrai, Gen.tiStru,
         Gen.tiMaskTyle, Gen.tiUint, Gen.tiSint] at h3 ⊢ <;>
       first
         | (simp [h3]; done)
@@ -92,28 +70,28 @@ theorem next_encArg (be : Bool) (v : Val) (hw : v.wf = true) (rest : Bytes) :
     simp only [Val.wf, Bool.and_eq_true, Bool.or_eq_true, decide_eq_true_eq, beq_iff_eq] at hw
     obtain ⟨ht, h3⟩ := hw
     rcases ht with rfl | rfl <;>
-      simp [nextTi, Val.ti, Val.hasLen, Val.bytes, Val.decoded, has, tyleLen, widthOf, Gen.tiBool, Gen.tiVari, Gen.tiFixp,
+      simp [nextTi, Val.ti, Val.hasLen, Val.bytes, Val.decoded, has, tyleLen, widthOf, Gen.tiBool, Gen.tiVari, Gen.tiFixp, Gen.tiAray, Gen.tiTrai, Gen.tiStru,
         Gen.tiMaskTyle, Gen.tiUint, Gen.tiSint, Gen.tiFloa] at h3 ⊢ <;> simp [h3]
   | utf8 s =>
     simp only [Val.wf, decide_eq_true_eq] at hw
     obtain ⟨l1, l2, e1, e2⟩ := rd16_wr16 be s.length hw (s ++ rest)
     simp only [Val.hasLen, if_true, Val.bytes, List.append_assoc]
     rw [e1]
-    simp [nextTi, Val.ti, Val.decoded, Val.bytes, has, tyleLen, Gen.tiBool, Gen.tiVari, Gen.tiFixp, Gen.tiMaskTyle, Gen.tiUint,
+    simp [nextTi, Val.ti, Val.decoded, Val.bytes, has, tyleLen, Gen.tiBool, Gen.tiVari, Gen.tiFixp, Gen.tiAray, Gen.tiTrai, Gen.tiStru, Gen.tiMaskTyle, Gen.tiUint,
       Gen.tiSint, Gen.tiFloa, Gen.tiStrg, Gen.tiRawd, Gen.scodUtf8, e2]
   | ascii s =>
     simp only [Val.wf, decide_eq_true_eq] at hw
     obtain ⟨l1, l2, e1, e2⟩ := rd16_wr16 be s.length hw (s ++ rest)
     simp only [Val.hasLen, if_true, Val.bytes, List.append_assoc]
     rw [e1]
-    simp [nextTi, Val.ti, Val.decoded, Val.bytes, has, tyleLen, Gen.tiBool, Gen.tiVari, Gen.tiFixp, Gen.tiMaskTyle, Gen.tiUint,
+    simp [nextTi, Val.ti, Val.decoded, Val.bytes, has, tyleLen, Gen.tiBool, Gen.tiVari, Gen.tiFixp, Gen.tiAray, Gen.tiTrai, Gen.tiStru, Gen.tiMaskTyle, Gen.tiUint,
       Gen.tiSint, Gen.tiFloa, Gen.tiStrg, Gen.tiRawd, Gen.scodAscii, e2]
   | raw s =>
     simp only [Val.wf, decide_eq_true_eq] at hw
     obtain ⟨l1, l2, e1, e2⟩ := rd16_wr16 be s.length hw (s ++ rest)
     simp only [Val.hasLen, if_true, Val.bytes, List.append_assoc]
     rw [e1]
-    simp [nextTi, Val.ti, Val.decoded, Val.bytes, has, tyleLen, Gen.tiBool, Gen.tiVari, Gen.tiFixp, Gen.tiMaskTyle, Gen.tiUint,
+    simp [nextTi, Val.ti, Val.decoded, Val.bytes, has, tyleLen, Gen.tiBool, Gen.tiVari, Gen.tiFixp, Gen.tiAray, Gen.tiTrai, Gen.tiStru, Gen.tiMaskTyle, Gen.tiUint,
       Gen.tiSint, Gen.tiFloa, Gen.tiStrg, Gen.tiRawd, e2]
 
 theorem encArg_length_pos (be : Bool) (v : Val) : 4 ≤ (encArg be v).length := by
